@@ -836,8 +836,23 @@ class _World:
             return f or self._pin(e, ('gh', lvl), canon, name, ci), None, canon
         if what == 'boc':
             opts = tuple(map(bool, OPTSETS[k % 6]))
-            canon, f, _ = self._twice(lambda: c.to_boc(*opts), name, bytes.hex)
-            return f or self._pin(e, ('boc', k % 6), canon, name, ci), None, canon
+            fl = (0, 2, 1, 3)[(k // 6) % 4]                # the 2-bit `flags` argument of to_boc (0 unless the caller asks otherwise)
+            canon, f, _ = self._twice((lambda: c.to_boc(*opts)) if k < 6 else (lambda: c.to_boc(*opts, flags=fl)), name, bytes.hex)
+            if f is None and canon[0] == 'ok' and len(canon[1]) >= 10 and (int(canon[1][8:10], 16) >> 3) & 3 != fl:
+                return Fail(f'{name}/flags-field-differs-from-the-argument', f'{self._at()}: to_boc(..., flags={fl}) wrote flags '
+                            f'{(int(canon[1][8:10], 16) >> 3) & 3}'), None, canon
+            if f is None and canon[0] == 'ok' and k < 6:
+                # the bytes parsed, the caller edits the list it was handed, the same bytes parsed again: still this one root
+                data = bytes.fromhex(canon[1])
+                ok1, r1 = call(L.Cell.from_boc, data)
+                if ok1 and isinstance(r1, list) and r1:
+                    r1.append(r1[0])
+                    r1[0] = L.Cell.empty()
+                    ok2, r2 = call(L.Cell.from_boc, data)
+                    if not ok2 or not isinstance(r2, list) or len(r2) != 1 or r2[0].hash != c.hash:
+                        return Fail('from_boc/depends-on-what-the-caller-did-with-an-earlier-result', f'{self._at()}: second parse of the '
+                                    f'same bytes gives {r2!r}'[:300]), None, canon
+            return f or self._pin(e, ('boc', k % 24), canon, name, ci), None, canon
         if what == 'repr_hash':
             canon, f, _ = self._twice(c.calculate_representation_hash, name, bytes.hex)
             return f or self._pin(e, 'rh', canon, name, ci), None, canon
@@ -1298,7 +1313,7 @@ def _g_obs(draw, m, ci=None, what=None):
     if what == 'get_hash':
         op['k'] = draw(st.integers(0, 3))
     elif what == 'boc':
-        op['k'] = draw(st.integers(0, 5))
+        op['k'] = draw(st.one_of(st.integers(0, 5), st.integers(0, 23)))
     elif what == 'order':
         op['k'] = draw(st.sampled_from([0, 0, 1]))
     elif what == 'dict':
@@ -1629,7 +1644,8 @@ def check_boc_order(case):
     ok2, B = call(dag.lib_from_ref, cells, 'builder')
     if not ok or not ok2:
         return None
-    o1, o2 = OPTSETS[case['first']], OPTSETS[case['second']]
+    ALLSETS = [tuple(o) + (0,) for o in OPTSETS] + [tuple(OPTSETS[0]) + (2,), tuple(OPTSETS[3]) + (1,), tuple(OPTSETS[0]) + (3,)]
+    o1, o2 = ALLSETS[case['first']], ALLSETS[case['second']]       # (has_idx, hash_crc32, has_cache_bits, flags)
     call(A[-1].to_boc, *o1)
     for inner in A[:-1][-2:]:
         call(inner.to_boc, *o1)
@@ -1641,6 +1657,8 @@ def check_boc_order(case):
     if okA and bytes(a) != bytes(b):
         return Fail('to_boc/depends-on-earlier-calls/bytes', f'to_boc{o2} after to_boc{o1} differs from to_boc{o2} of a fresh equal cell '
                     f'({len(a)} vs {len(b)} bytes)')
+    if okA and (a[4] >> 3) & 3 != o2[3]:
+        return Fail('to_boc/flags-field-differs-from-the-argument', f'to_boc{o2} wrote flags {(a[4] >> 3) & 3}')
     return None
 
 
@@ -1662,6 +1680,16 @@ def enum_boc_order(tier):
             for j in range(len(OPTSETS)):
                 if i != j:
                     yield {'spec': spec, 'first': i, 'second': j}
+    # calls that differ in the 2-bit `flags` argument only (and a few mixed pairs), on small bags and on chains of 33 / 40 / 70 cells
+    chains = []
+    for n in (2, 33, 40, 70):
+        ch = [{'k': 'o', 'b': [16, 2, n], 'r': []}]
+        for j in range(1, n):
+            ch.append({'k': 'o', 'b': [8 + j % 5, 2, j], 'r': [j - 1]})
+        chains.append(ch)
+    for spec in chains + specs[:2]:
+        for i, j in ((0, 6), (6, 0), (0, 8), (8, 6), (3, 7), (7, 3), (6, 8), (1, 6), (6, 5)):
+            yield {'spec': spec, 'first': i, 'second': j}
 
 
 SUBCHECKS = [
